@@ -28,8 +28,8 @@ TRUSTED_BASE = [
 # which extracted parts each property's model depends on
 PARTS_OF = {
     "C01": ["bond", "token", "dist"], "C02": ["bond", "token", "dist"], "C03": ["bond"], "C04": ["bond"],
-    "C05": ["bond"], "C06": ["bond"], "C07": ["bond"], "C08": ["bond"], "C09": ["dist", "bond"], "C10": ["bond"],
-    "C11": ["dist"], "C12": [], "C13": ["bond"], "C14": [], "C15": ["bond", "token", "dist"], "C16": ["bond"],
+    "C05": ["bond"], "C06": ["bond"], "C07": ["bond"], "C08": ["bond", "choose"], "C09": ["dist", "bond"], "C10": ["bond"],
+    "C11": ["dist"], "C12": [], "C13": ["bond"], "C14": [], "C15": ["bond", "token", "dist"], "C16": ["bond", "choose"],
     "C17": ["bond"], "C18": ["bond", "masses"], "C19": ["bond"], "C20": ["ffcache", "fftables"],
 }
 
@@ -161,9 +161,10 @@ def build(pid, tier="quick"):
                     fh.write(f"#print axioms {t}\n")
             rc2, out2 = _run(["lake", "env", "lean", audit], cwd=LEAN)
             os.unlink(audit)
-            for m in re.finditer(r"'([^']+)' depends on axioms: \[([^\]]*)\]", out2):
+            # the name is quoted with ' and may itself end in primes: `'GBS.P.foo'' depends on axioms`
+            for m in re.finditer(r"'([^'\s]+'*)' depends on axioms: \[([^\]]*)\]", out2):
                 st.axioms[m.group(1).split(".")[-1]] = [a.strip() for a in m.group(2).replace("\n", " ").split(",")]
-            for m in re.finditer(r"'([^']+)' does not depend on any axioms", out2):
+            for m in re.finditer(r"'([^'\s]+'*)' does not depend on any axioms", out2):
                 st.axioms[m.group(1).split(".")[-1]] = []
             for t in st.theorems:
                 key = t.split(".")[-1]
